@@ -36,7 +36,24 @@ RULE = ('entry points: the real opus_encode / opus_encode24 / opus_encode_float 
         'through mapping_matrix_multiply_channel_out_short, and arrays of them (0..700 samples) through the library\'s '
         'celt_float2int16 at every run-time arch level 0..4 (OPUS_VERIF_ARCH_CAP). A case is distinct by its '
         '(operation, outcome class) pair; outcome classes: sign of the input, finite/inf/nan, tiny/mid/sat16/indefinite24.')
-NOT_COVERED = ['NaN samples are outside the property: the model fixes FLOAT2INT16(NaN) = -32768 (what the code does today) but '
+NOT_COVERED = ['float_api differs by design: opus_encode / _encode24 / _encode_float pass 1 / 1 / 1, the multistream entry points '
+               '0 / 0 / 1 (the model and the ties record exactly that; ms_formats_agree is stated for a common value). Packet '
+               'equality therefore also needs that the float_api guard of opus_encode_frame_native (src/opus_encoder.c:1913-1924: '
+               'clear the frame when the energy of the high-pass-filtered buffer is not < 1e9 or is NaN) never fires on '
+               'int16-range input; the guard acts on pcm_buf after hp_cutoff / dc_reject, which is inside the un-modelled core, '
+               'so this is NOT proved (for |x| <= 1 the filtered energy of <= 5760*2 samples is far below 1e9, but that '
+               'is an argument, not a theorem); the S4 twin multistream search (int16 / int24 with float_api 0 against float '
+               'with float_api 1) checks its consequence',
+               'decoder side of the multistream clause (per-stream 24-bit = round(float*2^23), 16-bit = soft clip then '
+               'saturate(round(32768*v)) through opus_multistream_decode*): no model of opus_multistream_decode_native here (the '
+               'per-stream conversions are the same macros, tied by pcm-out / pcm-f2i16 / pcm-entry-dec for the single-stream '
+               'entry points only); searched: S4 mode ms compares, channel by channel, int24 and int16 output with the float '
+               'output through the library\'s clipper (own memory per output channel), incl. explicit layouts and resets',
+               '"all three report the same sample count and final range": the C13 decoder model has neither a sample count nor '
+               'rangeFinal (sample count / return value purity is C01\'s decodeNative_ret_pure; rangeFinal is an output of the '
+               'un-modelled core); searched: S4 modes dec and ms require equal return values and equal OPUS_GET_FINAL_RANGE '
+               'across the three entry points on every frame (and encoder == decoder final range in ms)',
+               'NaN samples are outside the property: the model fixes FLOAT2INT16(NaN) = -32768 (what the code does today) but '
                'the tie does not compare it, so that reordering the two clamps is not an alarm',
                'PLC calls (NULL packet) and FEC calls (decode_fec=1) of opus_decode bypass the soft clipper in '
                'opus_decode_native (upstream behaviour: soft_clip is only applied at the end of a normal packet decode); '
